@@ -7,6 +7,26 @@ ROOT = os.path.dirname(os.path.dirname(os.path.abspath(__file__)))
 
 # id -> (level category, technique, level text, level note, design section)
 CHECKS = {
+ "C01": ("exploration",
+         "ground truth by construction + marker files + hook-event trace automaton",
+         "Real InTotoVerify / InTotoVerifyWithDirectory are executed on signed layouts (both wrappers) for every (signer subset, verifier subset) pair of a 4-key pool, every single-point alteration of the dumped signed content, of the signature list and of the supplied key set; the generator knows which key signed which content version, so 'authentic' is known, and a non-authentic layout must be rejected with no inspection marker and no link loading before the signature phase. Held = no such acceptance/marker/ordering on the cases listed in the evidence.",
+         "Trusted: the generator's bookkeeping of who signed what; Go crypto. Acceptance of authentic controls is only an observation floor.",
+         "C01"),
+ "C03": ("exploration",
+         "reference-model monitor (queue interpreter + grammar) over exhaustive small universe with queue probes + seeded random programs",
+         "VerifyArtifacts and UnpackRule are executed next to an independently written reference interpreter/grammar on every rule list of length<=2 over a 50-rule vocabulary x every link state of a 4-path/2-hash universe (with a DISALLOW probe per path so that wrong consumption becomes visible), on random longer programs and on the token-list neighbourhood of every rule form. Held = verdicts and parse results agree on everything listed.",
+         "Trusted: reference interpreter (harness/ref/rules.go, ref/glob.go) written from the specification text; only clean paths/patterns/prefixes are judged.",
+         "C03"),
+ "C11": ("exploration",
+         "reference-model monitor (independent OLPC canonicaliser over an independently rendered tree) + metamorphic re-serialisation + collision set + strict JSON parse of DSSE payloads",
+         "For seeded links/layouts with hostile strings and nested values, the bytes the library signs are compared byte-for-byte with a reference canonicalisation of an independently rendered tree, must be invariant under re-serialisation of the file, must change under every single-leaf edit, non-integral numbers must be refused, and DSSE payloads must be valid JSON that decodes (strict parser and the library's loader) to what was set.",
+         "Trusted: the field table written from the in-toto specification (harness/gen/meta.go) and the reference canonicaliser (harness/ref/cjson.go).",
+         "C11"),
+ "C18": ("exploration",
+         "reference-model monitor + metamorphic end-to-end comparison",
+         "SubstituteParameters is compared field by field (whole layout) with a reference single-pass substitution for seeded layouts/dictionaries, each dictionary in 8 insertion orders; invalid names must be refused; InTotoVerify with a dictionary must behave like the pre-substituted re-signed layout (verdict and executed inspection command).",
+         "Trusted: reference substitution (harness/ref/subst.go). Names with non-ASCII letters are not judged.",
+         "C18"),
  "C17": ("exploration",
          "reference-model monitor over exhaustive small universe + seeded random pairs",
          "The real matcher (reached through NewSet(name).Filter(pattern), as the property's observe_at says) is executed on every pattern<=4 (quick) / <=6 (thorough) over an alphabet with every metacharacter x every name<=4 / <=5, plus random ASCII/UTF-8 pairs; an independent reference matcher written from the documented grammar is the oracle. Held = no disagreement and no panic on the pairs listed in the evidence; nothing is claimed about longer patterns beyond the random sample.",
